@@ -124,4 +124,20 @@ func init() {
 		DesignRef:   "DESIGN.md §6 C07",
 		Technique:   technique,
 	})
+	register(Check{
+		ID: "C08", Title: "Parsing, formatting and running are deterministic", Level: "model_checking",
+		Units: []Unit{evalUnit([]string{"evaluator/common.go", "evaluator/c08.go"},
+			Harness{Fn: "ZZC08Orders", Expect: []string{"orders-ok", "witness:end", "maprange:permuted:2", "maprange:permuted:3"}, MaxInstr: 40_000_000},
+		)},
+		Assumptions: []string{
+			"the adversarial schedule is Go's map iteration order: every range over a Go map of up to four entries executed in evy code is a choice point and all orders are explored (larger maps — the built-in function table — are ranged in canonical order: their loops only copy into other maps; sites listed under reach_markers)",
+			"the whole pipeline (parse, format, evaluate) runs under every order and is compared with a run under one fixed order; programs are biased to two or more entries wherever a map is ranged (unused variables per scope, map literals with side effects and mixed value types, font properties, handlers, map printing/equality/test)",
+			"the parser is given one built-in global instead of three to bound the number of orders",
+		},
+		Outside:   []string{"separate OS processes, addresses, timing (nothing in the encoded code depends on them)", "the random source: a contract stub, not a function of the seed", "programs outside the list"},
+		LevelText: "schedule exploration by bounded symbolic execution: parser.Parse (validateScope, parseMapLiteral, wrapAny, MapLiteral.infer, calledBuiltinFuncs), Program.Format, Evaluator.Eval (evalMapLiteral, mapVal.Equals, sameMap, parseFontProps, evalProgram) under every Go map iteration order, compared with a fixed-order run",
+		LevelNote: "trusts the engine's deterministic map model with explicit choice points",
+		DesignRef: "DESIGN.md §6 C08",
+		Technique: technique,
+	})
 }
